@@ -79,6 +79,12 @@ def split_model(c, m):
         # an interface field may only move if every implementer's copy moves too: keep it simple and
         # only move fields of interfaces that nothing implements
         used = any(i["name"] in t["interfaces"] for t in m["objects"] + m["interfaces"])
+        if i["interfaces"] and c.chance(128):
+            # the implements clause of an interface moves into an extension (its implementers already list the
+            # inherited interfaces themselves, so the base schema stays valid)
+            bi["interfaces"] = []
+            ext.append(f"extend interface {i['name']} implements " + " & ".join(i["interfaces"]))
+            kinds.add("interface-implements")
         if not used and len(own) > 1 and c.chance(128):
             f = own[-1]
             bi["fields"] = [x for x in bi["fields"] if x["name"] != f["name"]]
